@@ -131,6 +131,51 @@ def step (d : DState) (opLine : String) (impl : String) : DState × StepOut :=
   match words opLine with
   | ["reset"] =>
     ({ model := init PdModel.Generated.IdAlloc.allocStep }, { model := "ok @0" })
+  | ["race", i, g] =>
+    -- Alloc calls until exactly one id is left in the window, then g concurrent calls (reported in ascending order)
+    let i := natArg i
+    let rec drain (s : St) (fuel : Nat) (acc : List Nat) : St × Option (List Nat) :=
+      match fuel with
+      | 0 => (s, some acc.reverse)
+      | fuel + 1 =>
+        match PdModel.IdAlloc.step s (.alloc i .none) with
+        | (s', .id v) => if (v + 1) % 1000 = 0 then (s', some (v :: acc).reverse) else drain s' fuel (v :: acc)
+        | (s', _) => (s', none)
+    -- three rounds
+    let round (acc : St × Option (List Nat)) : St × Option (List Nat) :=
+      match acc.2 with
+      | none => acc
+      | some sofar =>
+        match drain acc.1 1100 [] with
+        | (s1, none) => (s1, none)
+        | (s1, some l1) =>
+          match allocMany s1 i (natArg g) [] with
+          | (s2, none) => (s2, none)
+          | (s2, some l2) => (s2, some (sofar ++ l1 ++ l2))
+    let (s3, res) := round (round (round (d.model, some [])))
+    let modelOut := match res with
+      | some l => "ok " ++ " ".intercalate (l.map toString)
+      | none => "fail"
+    let (outw, st) := parseImpl impl
+    let (mon', fails) : Mon × List String :=
+      match outw with
+      | "ok" :: vs =>
+        vs.foldl (fun (acc : Mon × List String) v =>
+          let (m', f') := monitor acc.1 (.alloc i .none) s!"ok {v} @{st}"
+          (m', acc.2 ++ f')) (d.mon, [])
+      | _ => monitor d.mon (.alloc i .none) s!"err @{st}"
+    ({ d with model := s3, mon := mon' }, { model := s!"{modelOut} @{s3.bound}", fails := fails })
+  | ["srvterm", _] =>
+    -- a real server's allocator across leadership terms: every id obtained, by whatever path, is distinct
+    let (outw, _) := parseImpl impl
+    let ids := (outw.drop 1).map natArg
+    let rec dup : List Nat → Option Nat
+      | [] => none
+      | x :: xs => if xs.contains x then some x else dup xs
+    let fails := match dup ids with
+      | some x => [s!"sig=C04.id-returned-twice-across-terms id={x} n={ids.length}"]
+      | none => []
+    (d, { model := impl, fails := fails })
   | ["split", i, p] => splitStep d (natArg i) (1 + natArg p) impl
   | ["bsplit", i, c, p] => splitStep d (natArg i) (natArg c * (1 + natArg p)) impl
   | ws =>
